@@ -10,6 +10,9 @@ From Coq Require Import ZArith List Bool Arith.
 Import ListNotations.
 From SpadeV Require Import Geom.Pred Obs.State Vmap.Model Dcel.Raw Dcel.WfCore Query.Hull Tri.Insert Tri.Remove.
 From SpadeV Require Tri.RemoveProofs.
+From SpadeV Require Dcel.ProofsFlip Dcel.WfLive Dcel.WfLiveOrbit Tri.RemoveWfProofs Tri.RemoveWfOrbitProofs Tri.RemoveWfCdtProofs.
+From SpadeV Require Tri.Legalize.
+From SpadeV Require Obs.SpecProp.
 
 (* the vertex table of the result is Vec::swap_remove of the vertex table (positions and payloads), the returned vertex is entry v *)
 Theorem C11_remove_vertex_table : forall pts fuel d v d' r,
@@ -122,6 +125,171 @@ Theorem C11_vertex_swap_remove_is_a_relabeling : forall fuel d v a,
        e_next d' e = e_next d e /\ e_prev d' e = e_prev d e /\ e_face d' e = e_face d e).
 Proof. exact RemoveProofs.swap_remove_vertex_relabels. Qed.
 
+(* ---- link-level well-formedness of the removal of an INTERIOR vertex of a two-dimensional state (Tri/RemoveWfProofs.v) ----
+   remove_core's inner branch: isolate_vertex_and_fill_hole (fan re-triangulation of the hole) + legalize_edges_after_removal +
+   cleanup_isolated_vertex (swap-removes of the spokes and the faces) + swap_remove_vertex.  Between the first and the last step the
+   tables contain unreferenced garbage; the invariant is DW of the LIVE part (Dcel/WfLive.v `DWX`).
+   Hypotheses: the input is DWf, no out-edge of v is an outer edge (border_scan returns no hull edge), the out-edges of v are the
+   counterclockwise orbit of its out_edge, the neighbours of v are pairwise different vertices (degree >= 3 follows from the success
+   of the model).  Conclusion: the state d3 before swap_remove_vertex is well-formed except that vertex v is isolated, and the result
+   is DWf if v is the last vertex or if the half-edges leaving the last vertex of d3 are the counterclockwise orbit of its out_edge. *)
+Theorem C11_remove_interior_wf_partial : forall pts fuel d v a bl es d' r,
+  DWf d ->
+  v_out_edge d v = Some a -> border_scan fuel d a a [] = Some (bl, None) ->
+  out_edges fuel d v = Some es ->
+  (forall e, e < length (d_hedges d) -> e_origin d e = v -> In e es) ->
+  NoDup (map (e_to d) es) ->
+  remove_vertex_full pts fuel d v = Some (d', r) ->
+  exists d3,
+    swap_remove_vertex fuel d3 v = Some (d', r) /\
+    WfLive.DWX d3 (WfLive.all_he d3) (WfLive.all_f d3) (fun w => w < length (d_verts d3) /\ w <> v) /\
+    length (d_verts d3) = length (d_verts d) /\
+    (S v = length (d_verts d) \/ RemoveWfProofs.OrbitCovers fuel d3 (length (d_verts d) - 1) -> DWf d').
+Proof. exact RemoveWfProofs.remove_interior_DWf_partial. Qed.
+
+(* unconditional when the removed vertex is the last one of the vertex table *)
+Theorem C11_remove_interior_last_wf : forall pts fuel d v a bl es d' r,
+  DWf d ->
+  v_out_edge d v = Some a -> border_scan fuel d a a [] = Some (bl, None) ->
+  out_edges fuel d v = Some es ->
+  (forall e, e < length (d_hedges d) -> e_origin d e = v -> In e es) ->
+  NoDup (map (e_to d) es) ->
+  S v = Raw.num_vertices d ->
+  remove_vertex_full pts fuel d v = Some (d', r) ->
+  DWf d'.
+Proof. exact RemoveWfProofs.remove_interior_last_DWf. Qed.
+
+(* the hypothesis on the last vertex cannot be dropped: a DWf dcel whose last vertex is the apex of two separate fans *)
+Theorem C11_remove_interior_needs_vertex_orbit :
+  exists d v a bl es d' r,
+    DWf d /\ v_out_edge d v = Some a /\ border_scan 50 d a a [] = Some (bl, None) /\
+    out_edges 50 d v = Some es /\
+    (forall e, e < length (d_hedges d) -> e_origin d e = v -> In e es) /\
+    NoDup (map (e_to d) es) /\ 3 <= length es /\
+    remove_vertex_full [] 50 d v = Some (d', r) /\ ~ DWf d'.
+Proof. exact RemoveWfProofs.remove_interior_DWf_counterexample. Qed.
+
+(* THE THEOREM.  The hypothesis on the last vertex is discharged by carrying the vertex-orbit clause through the whole removal
+   (Tri/RemoveWfOrbitProofs.v): `Conn d LE w` = the live half-edges leaving w are mutually reachable by counterclockwise rotation.
+   Removing an interior vertex with pairwise different neighbours from a DWf dcel that satisfies the vertex-orbit clause gives a DWf dcel
+   that satisfies the vertex-orbit clause. *)
+Theorem C11_remove_interior_wf : forall pts fuel d v a bl es d' r,
+  DWf d -> (forall w, WfLiveOrbit.Conn d (WfLive.all_he d) w) ->
+  v_out_edge d v = Some a -> border_scan fuel d a a [] = Some (bl, None) ->
+  out_edges fuel d v = Some es ->
+  NoDup (map (e_to d) es) ->
+  remove_vertex_full pts fuel d v = Some (d', r) ->
+  DWf d' /\ (forall w, WfLiveOrbit.Conn d' (WfLive.all_he d') w).
+Proof. exact RemoveWfOrbitProofs.remove_interior_DWf. Qed.
+
+(* the same with the vertex-orbit clause of the full Wf (Obs/SpecProp.v WfVertexOrbits, decided by wf_b on every implementation state) *)
+Theorem C11_remove_interior_preserves_wf_and_vertex_orbits : forall pts fuel d v a bl es d' r,
+  DWf d -> SpecProp.WfVertexOrbits (obs_of_dcel d) ->
+  v_out_edge d v = Some a -> border_scan fuel d a a [] = Some (bl, None) ->
+  out_edges fuel d v = Some es ->
+  NoDup (map (e_to d) es) ->
+  remove_vertex_full pts fuel d v = Some (d', r) ->
+  DWf d' /\ SpecProp.WfVertexOrbits (obs_of_dcel d').
+Proof. exact RemoveWfOrbitProofs.remove_interior_preserves_DWf_and_vertex_orbits. Qed.
+
+(* ... and with the hypotheses stated as clauses of the full Wf only: link-level clauses, vertex orbits, simplicity (which gives the
+   pairwise different neighbours); v interior (the scan of remove_core meets no outer edge) *)
+Theorem C11_remove_interior_preserves_wf_clauses : forall pts fuel d v a bl d' r,
+  DWf d -> SpecProp.WfVertexOrbits (obs_of_dcel d) -> SpecProp.WfSimple (obs_of_dcel d) ->
+  v_out_edge d v = Some a -> border_scan fuel d a a [] = Some (bl, None) ->
+  remove_vertex_full pts fuel d v = Some (d', r) ->
+  DWf d' /\ SpecProp.WfVertexOrbits (obs_of_dcel d').
+Proof. exact RemoveWfOrbitProofs.remove_interior_preserves_Wf_clauses. Qed.
+
+Theorem C11_vertex_orbits_iff_conn : forall d, DWf d ->
+  (SpecProp.WfVertexOrbits (obs_of_dcel d) <-> forall w, WfLiveOrbit.Conn d (WfLive.all_he d) w).
+Proof.
+  intros d H. apply ProofsFlip.DWf_DW in H. split.
+  - apply RemoveWfOrbitProofs.WfVertexOrbits_Conn. exact H.
+  - apply RemoveWfOrbitProofs.Conn_WfVertexOrbits. exact H.
+Qed.
+
+(* ---- constrained triangulations ---- *)
+(* the Lawson loop (Tri/Legalize.v, model of legalize_edge; used by insertion, remove_constraint_edge, CDT::remove) keeps DWf and the
+   vertex-orbit clause without any geometric hypothesis: it flips only edges with two inner faces and a positive in-circle test, and the
+   in-circle determinant of a repeated point is 0, so the apexes of a flipped edge are different vertices *)
+Theorem C11_legalize_wf_without_geometry : forall pts fuel fully d stack b d' b',
+  ProofsFlip.DW d -> (forall w, WfLiveOrbit.Conn d (WfLive.all_he d) w) -> (forall e, In e stack -> e < length (d_hedges d)) ->
+  Legalize.legalize pts fuel fully d stack b = Some (d', b') ->
+  ProofsFlip.DW d' /\ (forall w, WfLiveOrbit.Conn d' (WfLive.all_he d') w).
+Proof. exact RemoveWfCdtProofs.legalize_DW_Conn. Qed.
+
+(* remove_constraint_edge (the model hooked as `rmc` in Check/RunModel.v) *)
+Theorem C11_remove_constraint_edge_wf : forall pts fuel d u d' b,
+  DWf d -> (forall w, WfLiveOrbit.Conn d (WfLive.all_he d) w) -> u < Raw.num_undirected_edges d ->
+  remove_constraint_edge pts fuel d u = Some (d', b) ->
+  DWf d' /\ (forall w, WfLiveOrbit.Conn d' (WfLive.all_he d') w).
+Proof. exact RemoveWfCdtProofs.remove_constraint_edge_DWf. Qed.
+
+(* ConstrainedDelaunayTriangulation::remove: the constraints of v are released (state d0), then v is removed; the hypotheses on the
+   neighbourhood of v concern d0 *)
+Theorem C11_cdt_remove_interior_wf : forall pts fuel d v d' r,
+  DWf d -> (forall w, WfLiveOrbit.Conn d (WfLive.all_he d) w) ->
+  cdt_remove_vertex pts fuel d v = Some (d', r) ->
+  exists d0, release_constraints pts fuel fuel d v = Some d0 /\
+    DWf d0 /\ (forall w, WfLiveOrbit.Conn d0 (WfLive.all_he d0) w) /\
+    remove_vertex_full pts fuel d0 v = Some (d', r) /\
+    (forall a bl es, v_out_edge d0 v = Some a -> border_scan fuel d0 a a [] = Some (bl, None) ->
+       out_edges fuel d0 v = Some es -> NoDup (map (e_to d0) es) ->
+       DWf d' /\ (forall w, WfLiveOrbit.Conn d' (WfLive.all_he d') w)).
+Proof. exact RemoveWfCdtProofs.cdt_remove_interior_DWf. Qed.
+
+(* the three stages, separately *)
+(* (1) the fan re-triangulation turns a hole (DW of the live part with the boundary of the hole pending) into DW of the live part *)
+Theorem C11_remesh_edge_ring_wf : forall (dead deadF : nat -> Prop) (v fo H0 : nat),
+  (forall e, dead e -> dead (rev e)) ->
+  forall d b0 bl etr ftr d1 iso,
+  RemoveWfProofs.Hole dead deadF v fo H0 d b0 bl -> H0 <= length (d_hedges d) -> 2 <= length bl ->
+  remesh_edge_ring d (b0 :: bl) etr ftr = Some (d1, iso) ->
+  WfLive.DWX d1 (RemoveWfProofs.LEh dead d1) (RemoveWfProofs.LFh deadF d1) (RemoveWfProofs.LVh v d1) /\
+  (forall e, H0 <= e -> RemoveWfProofs.LEh dead d1 e -> e_face d1 e <> 0) /\
+  (forall e, dead e -> e < length (d_hedges d1)) /\ (forall f, deadF f -> f < length (d_faces d1)) /\
+  length (d_hedges d) <= length (d_hedges d1) /\
+  iso_edges_to_remove iso = etr /\ iso_faces_to_remove iso = ftr /\
+  iso_smallest_new_edge iso = length (d_flags d) /\
+  (forall u, In u (iso_new_edges iso) -> length (d_flags d) <= u /\ u < length (d_flags d1)).
+Proof. exact RemoveWfProofs.remesh_DWX. Qed.
+
+(* (2) legalize_edges_after_removal flips only edges from `smallest` on, which have inner faces on both sides, and only when the
+   apexes differ (the in-circle test of a repeated point is 0): DW of the live part is kept *)
+Theorem C11_legalize_after_removal_wf : forall pts (LE LF LV : nat -> Prop) smallest k d stack d',
+  WfLive.DWX d LE LF LV -> RemoveWfProofs.NewInner LE smallest d ->
+  (forall u, In u stack -> u < length (d_flags d)) ->
+  legalize_after_removal pts k d stack smallest = Some d' ->
+  WfLive.DWX d' LE LF LV /\ RemoveWfProofs.NewInner LE smallest d'.
+Proof. exact RemoveWfProofs.legalize_after_removal_DWX. Qed.
+
+(* (3) the swap-removes of cleanup_isolated_vertex are relabellings of the live part *)
+Theorem C11_cleanup_edges_wf : forall l d (LF LV : nat -> Prop) d',
+  Sorted.StronglySorted gt l ->
+  (forall u, In u l -> u < Raw.num_undirected_edges d) ->
+  WfLive.DWX d (fun e => e < length (d_hedges d) /\ ~ In (Nat.div2 e) l) LF LV ->
+  fold_opt swap_remove_undirected_edge l d = Some d' ->
+  WfLive.DWX d' (fun e => e < length (d_hedges d')) LF LV.
+Proof. exact RemoveWfCleanupProofs.cleanup_edges_DWX. Qed.
+
+Theorem C11_cleanup_faces_wf : forall l d (LE LV : nat -> Prop) d',
+  Sorted.StronglySorted gt l ->
+  (forall f, In f l -> 0 < f /\ f < Raw.num_faces d) ->
+  WfLive.DWX d LE (fun g => g < length (d_faces d) /\ ~ In g l) LV ->
+  fold_opt swap_remove_face l d = Some d' ->
+  WfLive.DWX d' LE (fun g => g < length (d_faces d')) LV /\
+  d_verts d' = d_verts d /\ d_flags d' = d_flags d /\ length (d_hedges d') = length (d_hedges d).
+Proof. exact RemoveWfCleanupProofs.cleanup_faces_DWX. Qed.
+
+(* DW of the live part with every entry live is DW; flip_cw keeps DW of the live part *)
+Theorem C11_live_wf_is_wf : forall d, DWf d <-> WfLive.DWX d (WfLive.all_he d) (WfLive.all_f d) (WfLive.all_v d).
+Proof.
+  intros d. split.
+  - intros H. apply WfLive.DW_DWX_full. apply ProofsFlip.DWf_DW. exact H.
+  - intros H. apply ProofsFlip.DWf_DW. apply (WfLive.DWX_full_DW d _ _ _ H); intros x Hx; exact Hx.
+Qed.
+
 Print Assumptions C11_remove_vertex_table.
 Print Assumptions C11_cdt_remove_vertex_table.
 Print Assumptions C11_remove_is_vm_remove.
@@ -133,3 +301,18 @@ Print Assumptions C11_remove_two_vertices_left_wf.
 Print Assumptions C11_remove_chain_needs_connectivity.
 Print Assumptions C11_edge_swap_remove_is_a_relabeling.
 Print Assumptions C11_vertex_swap_remove_is_a_relabeling.
+Print Assumptions C11_remove_interior_wf_partial.
+Print Assumptions C11_remove_interior_last_wf.
+Print Assumptions C11_remove_interior_needs_vertex_orbit.
+Print Assumptions C11_remesh_edge_ring_wf.
+Print Assumptions C11_legalize_after_removal_wf.
+Print Assumptions C11_cleanup_edges_wf.
+Print Assumptions C11_cleanup_faces_wf.
+Print Assumptions C11_live_wf_is_wf.
+Print Assumptions C11_remove_interior_wf.
+Print Assumptions C11_remove_interior_preserves_wf_and_vertex_orbits.
+Print Assumptions C11_vertex_orbits_iff_conn.
+Print Assumptions C11_legalize_wf_without_geometry.
+Print Assumptions C11_remove_constraint_edge_wf.
+Print Assumptions C11_cdt_remove_interior_wf.
+Print Assumptions C11_remove_interior_preserves_wf_clauses.
